@@ -125,10 +125,12 @@ writer_step(void)
     ++written;
 }
 
+static struct VideoFrame seen_hdr[NMAX / K + 2];
+static float seen_px[NMAX / K + 2][NPX];
 static void
-check_emitted(const struct VideoFrame* f)
+check_emitted(int j)
 {
-    int j = emitted;
+    const struct VideoFrame* f = &seen_hdr[j];
     int first = j * K;
     int complete = (first + K <= N);
     if (f->bytes_of_frame != OUT_BYTES || f->shape.type != SampleType_f32 || f->shape.dims.width != NPX || f->shape.strides.planes != NPX) ++emit_errors;
@@ -139,8 +141,7 @@ check_emitted(const struct VideoFrame* f)
             int32_t S = 0;
             for (int w = 0; w < K; ++w) S += pix[first + w][i];
             float want = (float)S * (1.0f / (float)K);
-            float got = ((const float*)f->data)[i];
-            if (!(got == want)) ++emit_errors;
+            if (!(seen_px[j][i] == want)) ++emit_errors;
         }
     }
     /* a trailing incomplete window may be emitted un-normalised: value not constrained */
@@ -155,14 +156,17 @@ sink_step(void)
     if (storage_stopped) return;
     size_t* pos = &out.holds.pos[snk.id - 1];
     if (*pos < out.head) {
-        /* map + append + unmap of everything available: the storage sees the pixels NOW */
-        for (int g = 0; g < NMAX / K + 2; ++g)
-            if (*pos < out.head) {
-                for (int k = 0; k <= NMAX / K + 1; ++k) /* concrete slot per branch */
-                    if (*pos == (size_t)k * OUT_BYTES) check_emitted((const struct VideoFrame*)(out.data + (size_t)k * OUT_BYTES));
+        /* map + append + unmap of everything available: the storage sees the frames NOW, so what it
+         * sees is snapshotted now (slot k of the linear tape is the k-th emitted frame) and compared
+         * with the oracle at the end of the run */
+        for (int k = 0; k <= NMAX / K + 1; ++k)
+            if (*pos <= (size_t)k * OUT_BYTES && (size_t)k * OUT_BYTES < out.head) {
+                const struct VideoFrame* f = (const struct VideoFrame*)(out.data + (size_t)k * OUT_BYTES);
+                seen_hdr[k] = *f;
+                for (int i = 0; i < NPX; ++i) seen_px[k][i] = ((const float*)f->data)[i];
                 ++emitted;
-                *pos += OUT_BYTES;
             }
+        *pos = out.head;
     } else if (sink_told_to_stop) {
         storage_stopped = 1;
         sink_pos_at_stop = *pos;
@@ -251,7 +255,10 @@ int
 main(void)
 {
     channel_new(&out, OUT_BYTES + 8);
-    for (size_t i = 0; i < TAPE_INIT; ++i) out.data[i] = ND(uint8_t); /* previously used memory: arbitrary bytes */
+    /* previously used memory: the pixel area of every output slot holds arbitrary bytes (headers are
+     * always fully written by the filter) */
+    for (size_t k = 0; k < TAPE_INIT / OUT_BYTES; ++k)
+        for (size_t i = 0; i < 4 * NPX; ++i) out.data[k * OUT_BYTES + sizeof(struct VideoFrame) + i] = ND(uint8_t);
     video_filter_init(&flt, 0, (NMAX + 1) * IN_BYTES + 8, &out);
     video_filter_configure(&flt, K);
     N = ND(uint8_t);
@@ -266,6 +273,8 @@ main(void)
     VASSERT(rc == 0, "filter thread reported an error");
     /* what is still queued is consumed now (unless the storage has been stopped) */
     if (!storage_stopped) { in_env = 1; sink_step(); in_env = 0; }
+    for (int j = 0; j < NMAX / K + 2; ++j)
+        if (j < emitted) check_emitted(j);
     int queued = storage_stopped && out.head > sink_pos_at_stop;
     VASSERT(emit_errors == 0, "C10: an emitted frame is not the f32 mean of its window (type, size, frame id or pixel value wrong)");
     int complete = N / K, trailing = (N % K) ? 1 : 0;
